@@ -275,7 +275,11 @@ func RunFunction(p *Program, fn *ssa.Function) (res *ExecResult) {
 	if c := p.ContractOf(fn); c != nil && c.Flags["opaque_strings"] {
 		opaqueStrings = true
 	}
-	defer func() { opaqueStrings = false }()
+	stringLenBound = false
+	if c := p.ContractOf(fn); c != nil && c.Flags["string_len_bound"] {
+		stringLenBound = true
+	}
+	defer func() { opaqueStrings = false; stringLenBound = false }()
 	e := NewExec(p, fn)
 	res = &ExecResult{Exec: e}
 	defer func() {
@@ -480,6 +484,10 @@ func wfTerm(tm *Term, t types.Type, next *Term) *Term {
 		return And(Lt(IVal(tm), next), Implies(Eq(ITag(tm), IntLit(0)), Eq(IVal(tm), IntLit(0))), Le(IntLit(0), ITag(tm)))
 	case *types.Basic:
 		b := t.Underlying().(*types.Basic)
+		if b.Info()&types.IsString != 0 && tm.Sort == SString && stringLenBound {
+			// A-SIZE: no string is longer than 2^40 characters (so index arithmetic on strings cannot overflow)
+			return Le(mk("str.len", SInt, tm), BigIntLit("1099511627776"))
+		}
 		if b.Info()&types.IsInteger != 0 {
 			lo, hi := intRange(b)
 			if lo != "" {
@@ -1674,6 +1682,10 @@ func (e *Exec) binop(x *ssa.BinOp) Val {
 	unsupported("binop %s", x.Op)
 	return nil
 }
+
+// stringLenBound: add the A-SIZE bound on string lengths to the well-formedness of string values (contract flag
+// `string_len_bound`; off by default because length constraints slow the string solvers down).
+var stringLenBound bool
 
 // isSmall: the term is a length, an index into a string/slice, a small constant, or a sum/difference of such; its
 // magnitude is bounded by the size of addressable memory, so 64-bit arithmetic on two small terms cannot overflow.
